@@ -77,6 +77,9 @@ class SessionCtx:
         self.alive_calls = 0
         self.restore_omen_calls = []
         self.saves = 0
+        import collections as _c
+        self.kbd_faults = _c.Counter()
+        self.should_exit_set_at = None  # (step, lines written) when pcfg.should_exit became True
         self.omen_count = 0             # M expansions started in this cycle
         self.omen_start = None          # line count when the current M expansion / remainder began
         self.in_remainder = False
@@ -152,6 +155,30 @@ class StandInThreading:
         return _M
 
 
+def watch_should_exit(pcfg, ctx, sim=None):
+    """make the moment ``pcfg.should_exit`` becomes true observable (from outside)"""
+    cls = pcfg.__class__
+    if getattr(cls, "_pcfgsim_watched", False):
+        return
+
+    class Watched(cls):
+        _pcfgsim_watched = True
+
+        @property
+        def should_exit(self):
+            return self.__dict__["_se"]
+
+        @should_exit.setter
+        def should_exit(self, v):
+            self.__dict__["_se"] = v
+            if v and ctx.should_exit_set_at is None:
+                ctx.should_exit_set_at = (sim.step if sim is not None else None, ctx.nlines,
+                                          ctx.omen_start is not None or ctx.in_remainder)
+
+    pcfg.__dict__["_se"] = pcfg.__dict__.pop("should_exit", False)
+    pcfg.__class__ = Watched
+
+
 def install():
     """observation seams; idempotent; passthrough when no session is current"""
     if _INSTALLED[0]:
@@ -215,7 +242,7 @@ class SessionResult:
     pass
 
 
-def run_main(argv, ctx, threading_obj=None, input_fn=None, out=None, keep_err=False):
+def run_main(argv, ctx, threading_obj=None, input_fn=None, out=None, keep_err=False, time_obj=None):
     """pcfg_guesser.main() with seams.  Returns SessionResult."""
     import pcfg_guesser
     import lib_guesser.cracking_session as cs
@@ -231,8 +258,8 @@ def run_main(argv, ctx, threading_obj=None, input_fn=None, out=None, keep_err=Fa
              cs.__dict__.get("input"))
     sys.argv = ["pcfg_guesser.py"] + list(argv)
     cs.threading = threading_obj or StandInThreading(ctx)
-    cs.time = ctx.clock
-    sr.time = ctx.clock
+    cs.time = time_obj or ctx.clock
+    sr.time = time_obj or ctx.clock
     sr.datetime = fake_dt
     pcfg_guesser.datetime = fake_dt
     if input_fn is not None:
